@@ -197,6 +197,10 @@ func (u *Unit) discharge(o *Obligation, cfg *solverCfg, seq int) {
 		o.Result, o.Backend = "unsat", "syntactic"
 		return
 	}
+	if o.Kind == "callsite" {
+		o.Result, o.Backend = "sat", "syntactic"
+		return
+	}
 	for _, p := range o.PC {
 		if p == "false" {
 			if o.Expect == "unsat" {
